@@ -32,11 +32,11 @@ Definition f_to_int64 (a : Z) : Z :=
     if (- two63 <=? t) && (t <? two63) then t else - two63
   else - two63.
 
-(* Go on amd64: x < 2^63 ? uint64(int64(x)) : uint64(int64(x - 2^63)) ^ (1 << 63) *)
+(* Go on amd64: x < 2^63 ? uint64(int64(x)) : uint64(int64(x - 2^63)) | (1 << 63)   (observed: uint64(1e30) = 2^63) *)
 Definition f_to_uint64 (a : Z) : Z :=
   if f_lt a (f_of_Z two63) then (f_to_int64 a) mod two64
   else let y := (f_to_int64 (f_sub a (f_of_Z two63))) mod two64 in
-       if y <? two63 then y + two63 else y - two63.
+       if y <? two63 then y + two63 else y.
 
 Definition c_max_json : Z := 0x433FFFFFFFFFFFFF.      (* float64(1<<53 - 1) *)
 Definition c_min_json : Z := 0xC33FFFFFFFFFFFFF.
@@ -69,6 +69,22 @@ Definition f_mult_of (data factor : Z) : mres :=
     let mult := if f_lt factor c_one then f_mul (f_div c_one factor) data else f_div data factor in
     if f_is_json_int mult then MOk else MNotMultiple.
 
+(* the exact value of a finite binary64, when it is an integer *)
+Definition f_exact_int (a : Z) : option Z :=
+  match fb a with
+  | Binary.B754_zero _ _ _ => Some 0
+  | Binary.B754_finite _ _ s m e _ =>
+      let z := if s then Z.neg m else Z.pos m in
+      if 0 <=? e then Some (z * 2 ^ e)
+      else if Z.eqb ((Z.pos m) mod 2 ^ (- e)) 0 then Some (z / 2 ^ (- e)) else None
+  | _ => None
+  end.
+
+(* rounding to float32 overflows from 2^128 - 2^103 on (half an ulp above MaxFloat32, ties to even -> infinity) *)
+Definition c_f32_limit : Z := 0x47EFFFFFF0000000.
+Definition f_fits_f32 (a : Z) : bool := f_finite a && f_lt (f_abs a) c_f32_limit.
+
 Definition flocq_ops : numops :=
   {| n_le := f_le; n_lt := f_lt; n_eq := f_eq; n_is_int := f_is_json_int; n_mult_of := f_mult_of;
-     n_of_int := f_of_Z; n_to_int64 := f_to_int64; n_to_uint64 := f_to_uint64 |}.
+     n_of_int := f_of_Z; n_to_int64 := f_to_int64; n_to_uint64 := f_to_uint64;
+     n_exact_int := f_exact_int; n_fits_f32 := f_fits_f32 |}.
